@@ -29,7 +29,7 @@ from vlib import core, engine_corr, genfw
 from vlib.core import q, unq
 
 PROPERTY = "C09"
-LEAN_MODS = ["AtomicaProofs.Properties.C09"]
+LEAN_MODS = ["AtomicaProofs.Properties.C09", "AtomicaProofs.Properties.C13Closed"]
 THEOREMS = [
     "Atomica.C09.run_causal",                       # L1: parameter streams equal at indices < n => stocks+flows equal at < n, stocks at n
     "Atomica.C09.end_extension",                    # L1: run on the prefix stream = prefix of the run
@@ -54,6 +54,17 @@ THEOREMS = [
     "Atomica.C09.grid_extension",
     "Atomica.C09.end_extension_grid",
     "Atomica.C03.grid_prefix",
+    # closed loop WITH programs (lean/AtomicaModel/ClosedProg.lean): before the start year a run with programs IS the run without them, entry by entry, for every specification and run length
+    "Atomica.C13.closed_is_ev",
+    "Atomica.C13.closedprog_is_closed_before_start",
+    "Atomica.C13.closedprog_prefix_before_start",
+    "Atomica.C13.closedprog_stock_at_start",
+    "Atomica.C13.closedprog_after_stop",
+    "Atomica.C13.closedprog_after_stop_data",
+    "Atomica.C13.closedprog_instructions_agree_before",
+    "Atomica.C13.closedprog_start_year_moved",
+    "Atomica.C13.progNow_congr_before",
+    "Atomica.C13.closedprog_prefix",
 ]
 TRUSTED = [
     "function values and program outcomes (function parser, Covout.get_outcome, Program.get_prop_covered) are inputs of the model's parameter policy (modelled in C12/C11/C13)",
@@ -1208,6 +1219,9 @@ def run(ctx):
     at.logger.setLevel(logging.ERROR)
     run_modeA_scen(ctx)
     run_modeA_series(ctx)
+    # closed loop with programs: whole trajectories from the specification alone; on a disagreement the prefix oracle (re-run without programs) is evaluated
+    from vlib import closedprog_corr
+    closedprog_corr.run_closedprog(ctx, PROPERTY, ctx.n(25, 600))
     js = jobs(ctx)
     nproc = int(os.environ.get("VERIF_PROCS", "0") or 0) or (min(6, os.cpu_count() or 1) if ctx.quick else min(16, os.cpu_count() or 1))
     if nproc > 1:
@@ -1238,7 +1252,11 @@ def replay(ctx, data):
 
     warnings.filterwarnings("ignore")
     at.logger.setLevel(logging.ERROR)
-    rp = data["replay"]
+    rp = data.get("replay") or {}
+    c = rp.get("case") or (data.get("broken") or [{}])[0].get("case")
+    if isinstance(c, dict) and c.get("closedprog"):
+        from vlib import closedprog_corr
+        return closedprog_corr.replay_case(c)
     if rp.get("kind") == "modeA-scen":
         case = rp["case"]
         B = modeA_base()
